@@ -639,6 +639,14 @@ class World:
         in_call = [False]
         try:
             with ctxmgr() as mgr:
+                if hasattr(mgr, 'write_entity'):
+                    # entities come from `mdib.entities` (by_handle / new_entity): the application keeps them after it has written them
+                    _orig_we = mgr.write_entity
+
+                    def _we(entity, *a, **k):
+                        info.setdefault('entities', []).append(entity)
+                        return _orig_we(entity, *a, **k)
+                    mgr.write_entity = _we
                 for call in script['calls']:
                     self.clock.t += 1
                     try:
@@ -710,6 +718,13 @@ class World:
             else:
                 self.mutate_state(obj, n)
                 deep_scribble(obj)
+        for ent in info.get('entities', []):
+            self.mutate_descr(ent.descriptor, n + 2)
+            deep_scribble(ent.descriptor)
+            for st in (list(ent.states.values()) if ent.is_multi_state else [ent.state]):
+                if st is not None:
+                    self.mutate_state(st, n + 2)
+                    deep_scribble(st)
         # published copies must not have changed through the handed-out objects
         for label, obj, before in self.retained[-len(published):] if published else []:
             if lb.canon_value(obj) != before:
@@ -933,6 +948,8 @@ class World:
                 ent.states.pop(call[1], None)
                 self.emit(f'del {H(call[1])}', 'ok')
                 mgr.write_entity(ent, [call[1]])
+                if st is not None:
+                    info.setdefault('asked_removed_ctx', []).append(call[1])
         else:
             if op == 'getDescr':
                 self.emit(f'getDescr {H(call[1])}', 'ok')
@@ -990,7 +1007,10 @@ class World:
                     how = 'add'
                 if ent.is_multi_state:
                     if how == 'drop' and ent.states:
-                        ent.states.pop(sorted(ent.states)[0])
+                        dropped = sorted(ent.states)[0]
+                        ent.states.pop(dropped)
+                        if m.context_states.handle.get_one(dropped, allow_none=True) is not None:
+                            info.setdefault('asked_removed_ctx_pending', []).append(dropped)
                     elif how == 'add':
                         gone = sorted(x for x in m.context_states.handle_version_lookup
                                       if m.context_states.handle.get_one(x, allow_none=True) is None
@@ -1009,6 +1029,7 @@ class World:
                     self.mutate_state(ent.state, n)
                     self.emit(head + f' single {ent.state.StateVersion} {self.sbody(ent.state)}', 'ok')
                 mgr.write_entity(ent)
+                info.setdefault('asked_removed_ctx', []).extend(info.pop('asked_removed_ctx_pending', []))
             elif op == 'removeEntity':
                 try:
                     ent = m.entities.by_handle(call[1])
